@@ -63,6 +63,38 @@ func VerifC14SharedBase() {
 	})
 }
 
+// errBases: bases that carry 0..9 recorded validation errors when parsed by a reporting parser (a space or a
+// backslash each): slices with and without spare capacity behind the base.
+var errBases = []string{"http://h/p", "http://h/a b", "http://h/a b c", "http://h/a b c d", "http://h\\a b c d", "http://h/a b c d e f", "http://h/a b c d e f g h i j", "a:b c d e#f g"}
+
+// VerifC14SharedBaseConfigured: the same for a base that came from a configured parser (all ten options
+// symbolic), in particular a reporting parser whose URL values carry validation errors: resolution against the
+// shared base, also through Parser.ParseRef, stores nothing into it - not even behind the end of a slice.
+func VerifC14SharedBaseConfigured() {
+	p := symbolicParser()
+	baseStr := errBases[vnd.Pick(len(errBases))]
+	b, err := p.Parse(baseStr)
+	if err != nil {
+		return
+	}
+	ri := vnd.Pick(len(refCtx))
+	ref := refCtx[ri].pre + vnd.StrOver(vnd.Len(vnd.Param("C14.KCfgRef", 2, 3)), "a \\%?#/") + refCtx[ri].suf
+	vnd.Cover("configured-base-parsed", true)
+	vnd.Concurrently(func() {
+		r, rerr := b.Parse(ref)
+		touchReadOnly(b)
+		_ = b.ValidationErrors()
+		if rerr == nil {
+			touchReadOnly(r)
+			_ = r.ValidationErrors()
+		}
+		r2, rerr2 := p.ParseRef(baseStr, ref)
+		if rerr2 == nil {
+			_ = r2.ValidationErrors()
+		}
+	})
+}
+
 // VerifC14SharedParser: the package-level functions and a shared Parser value (any configuration).
 func VerifC14SharedParser() {
 	p := symbolicParser()
@@ -92,6 +124,7 @@ func VerifC14SharedParser() {
 }
 
 func init() {
+	verifHarnesses["VerifC14SharedBaseConfigured"] = VerifC14SharedBaseConfigured
 	verifHarnesses["VerifC14SharedBase"] = VerifC14SharedBase
 	verifHarnesses["VerifC14SharedParser"] = VerifC14SharedParser
 }
